@@ -368,7 +368,9 @@ func NewMachine(prog *ssa.Program, stats *SolverStats, tmpDir string, incMs, sho
 	initReflect(i)
 	i.ex = &Explorer{stats: stats}
 	i.ex.solver = NewSolver(stats, tmpDir, incMs, shotSec)
-	return &Machine{i: i}
+	m := &Machine{i: i}
+	i.ex.where = func() string { return m.targetStack(3) }
+	return m
 }
 
 func (m *Machine) Close() { m.i.ex.solver.Close() }
